@@ -106,6 +106,13 @@ class Aliased:
 
 @with_fields_set
 @dataclass
+class AllDefaults:
+    a: int = 0
+    b: int = field(default=0, metadata=default_as_set)
+    c: Optional[int] = None
+
+@with_fields_set
+@dataclass
 class NoDefaultAll:
     a: int
     b: int
@@ -147,6 +154,8 @@ POOL: Dict[str, dict] = {
     "DecoratedDerived": dict(params=[("a", False, None), ("b", True, 0), ("c", True, 0)]),
     "DecoratedFromDecorated": dict(params=[("a", False, None), ("b", True, 0), ("c", True, 0)]),
     "Aliased": dict(params=[("a_b", False, None), ("c", True, 0), ("d", True, None)], aliases={"a_b": "x", "c": "see"}),
+    # every field defaulted: instances can be built without any argument
+    "AllDefaults": dict(params=[("a", True, 0), ("b", True, 0), ("c", True, None)], always={"b"}),
     "NoDefaultAll": dict(params=[("a", False, None), ("b", False, None)]),
     # keyword-only fields are moved to the end of the generated __init__ (3.10+): positional arguments
     # map to the signature, not to the declaration order
@@ -311,6 +320,29 @@ def check_state(cname, obj, model: Model, hist, st: infra.Stats, role: str = "cu
         )
 
 
+def fresh_probe(mod, cname, hist, st: infra.Stats):
+    """instances do not share their tracked set: whatever was done to the explored object(s), an instance built afresh with
+    the least arguments (constructor and deserialize) has the set of a first instance"""
+    spec = POOL[cname]
+    required = {n: (spec.get("values", {}).get(n, (0, 1))[1] if n in spec.get("values", {}) else 1) for n, has_d, _ in spec["params"] if not has_d}
+    for how in ("kw", "deser"):
+        try:
+            obj, model, _ = build(mod, cname, (how, dict(required)), [])
+        except Exception:
+            continue
+        real = set(fields_set(obj))
+        if real != model.set:
+            st.violation(
+                {
+                    "signature": {"kind": "fresh_instance_fields_set", "class": cname, "how": how, "last_op": hist[-1][0] if hist else "init"},
+                    "what": f"{cname}: after {hist} on another instance, a fresh instance ({how} {required}) has fields_set={sorted(real)}, a first instance has {sorted(model.set)}"[:400],
+                    "class": cname,
+                    "history": [list(h) if isinstance(h, tuple) else h for h in hist],
+                }
+            )
+            return
+
+
 def explore_class(mod, cname, st: infra.Stats, max_depth: int):
     spec = POOL[cname]
     params = spec["params"]
@@ -366,6 +398,7 @@ def explore_class(mod, cname, st: infra.Stats, max_depth: int):
                 continue
             transitions += 1
             check_state(cname, obj, model, [init] + h2, st)
+            fresh_probe(mod, cname, [init] + h2, st)
             if prev is not None:
                 # the object replace() was called on is a second live object: same checks, its own model
                 check_state(cname, prev[0], prev[1], [init] + h2, st, role="source_of_replace")
